@@ -105,6 +105,9 @@ class Ctx:
         out = os.path.join(self.scratch, "rep-%d.json" % (len(self.tlc_runs) * 1000 + int(time.time() * 1000) % 100000))
         e = dict(GOENV)
         e["VERIF_SEED"] = str(self.seed)
+        ks = [k["sig_re"] for k in load_known() if k.get("status") == "known" and k.get("property") == self.prop and k.get("sig_re")]
+        if ks:
+            e["VERIF_KNOWN_SIG_RE"] = "|".join("(?:%s)" % x for x in ks)
         if env:
             e.update(env)
         t = time.time()
